@@ -7,3 +7,4 @@ mod c18_ident;
 mod c18_path;
 mod c06_encode;
 mod standins;
+mod std_contracts;
